@@ -10,12 +10,14 @@ use std::io::{Cursor, Read};
 
 #[derive(Clone, Debug)]
 pub enum ROp { List, Get(String), Read(usize), Drop, Hash(String), Size(String) }
+/// flag on a read size: repeat `read` until that many bytes were obtained (or the end / an error)
+pub const EXACT: usize = 1 << 40;
 impl ROp {
     fn to_json(&self) -> Value {
         match self {
             ROp::List => json!({"op":"list"}),
             ROp::Get(n) => json!({"op":"get","name":hx(n.as_bytes())}),
-            ROp::Read(n) => json!({"op":"read","n":n}),
+            ROp::Read(n) => if n & EXACT != 0 { json!({"op":"read","n":n & !EXACT,"exact":true}) } else { json!({"op":"read","n":n}) },
             ROp::Drop => json!({"op":"drop"}),
             ROp::Hash(n) => json!({"op":"hash","name":hx(n.as_bytes())}),
             ROp::Size(n) => json!({"op":"size","name":hx(n.as_bytes())}),
@@ -24,7 +26,7 @@ impl ROp {
     fn from_json(v: &Value) -> ROp {
         let name = || String::from_utf8(unhx(&v["name"])).unwrap_or_default();
         match v["op"].as_str().unwrap_or("") {
-            "list" => ROp::List, "get" => ROp::Get(name()), "read" => ROp::Read(v["n"].as_u64().unwrap_or(0) as usize),
+            "list" => ROp::List, "get" => ROp::Get(name()), "read" => ROp::Read(v["n"].as_u64().unwrap_or(0) as usize | if v["exact"] == true { EXACT } else { 0 }),
             "drop" => ROp::Drop, "hash" => ROp::Hash(name()), _ => ROp::Size(name()),
         }
     }
@@ -65,10 +67,21 @@ fn run_impl(bytes: &[u8], cfg: &Cfg, hist: &[ROp]) -> Result<Vec<Value>, String>
                         i += 1;
                         while i < hist.len() {
                             if let ROp::Read(k) = hist[i] {
+                                let exact = k & EXACT != 0;
+                                let k = k & !EXACT;
                                 let mut buf = vec![0u8; k];
-                                match f.data.read(&mut buf) {
-                                    Ok(got) => outs.push(json!({"data": hx(&buf[..got])})),
-                                    Err(e) => outs.push(json!({"err": io_err_class(&e)})),
+                                let mut got = 0usize;
+                                let mut err = None;
+                                loop {
+                                    match f.data.read(&mut buf[got..]) {
+                                        Ok(0) => break,
+                                        Ok(g) => { got += g; if !exact || got == k { break; } }
+                                        Err(e) => { err = Some(io_err_class(&e)); break; }
+                                    }
+                                }
+                                match err {
+                                    None => outs.push(json!({"data": hx(&buf[..got])})),
+                                    Some(e) => outs.push(json!({"err": e})),
                                 }
                                 i += 1;
                             } else { break; }
@@ -115,6 +128,7 @@ fn check(rep: &mut Report, model: &mut Model, cfg: &Cfg, ops: &[Op], hist: &[ROp
                     match out.get("data") {
                         Some(d) => {
                             let d = unhx(d);
+                            let n = &(*n & !EXACT);
                             if d.len() > *n || *done + d.len() > c.len() || d[..] != c[*done..*done + d.len()] { bad(rep, "bytes", "wrong bytes".into()); return false; }
                             if d.is_empty() && *n > 0 && *done < c.len() { bad(rep, "early-eof", format!("empty read at {} of {}", done, c.len())); return false; }
                             *done += d.len();
@@ -218,6 +232,25 @@ pub fn run(ctx: &Ctx) -> Report {
         let hist: Vec<ROp> = c["history"].as_array().unwrap().iter().map(ROp::from_json).collect();
         check(&mut rep, &mut model, &cfg, &ops, &hist);
         return rep;
+    }
+    // alignment cases: the first compressed block ends 1 / 2 / 0 bytes after an encryption chunk boundary;
+    // file "a" is read exactly up to the end of that block, abandoned, and the next block is entered by
+    // hash / open / size of either file
+    for residue in [1usize, 2, 0] {
+        if let Some(ops) = aligned_ops(&mut rng, residue) {
+            // stream = FileStart(a) 18 bytes + FileContent header 17 bytes + data: block 0 holds data[..block-35]
+            let upto = CONSTS.block - 35;
+            for layers in [L_COMP | L_ENC, L_COMP] {
+                let mut cfg = Cfg::make(&mut rng, layers);
+                cfg.level = 5;
+                for tail in [vec![ROp::Drop, ROp::Hash("a".into())], vec![ROp::Drop, ROp::Get("b".into()), ROp::Read(1 << 20)], vec![ROp::Read(7), ROp::Read(1 << 20 | EXACT), ROp::Drop, ROp::Hash("b".into())]] {
+                    let mut hist = vec![ROp::Get("a".into()), ROp::Read(upto | EXACT)];
+                    hist.extend(tail);
+                    rep.count(&format!("aligned:block end {residue} after a chunk boundary"));
+                    if !check(&mut rep, &mut model, &cfg, &ops, &hist) && rep.full() { return rep; }
+                }
+            }
+        } else { rep.count("aligned:not-reached"); }
     }
     let n = if CONSTS.scaled { ctx.budget(600, 20000) } else { ctx.budget(24, 300) };
     for i in 0..n {
